@@ -25,7 +25,7 @@ import (
 )
 
 type c35cOp struct {
-	kind string // add | addmulti | exists | existsmulti | remove
+	kind string // add | addmulti | exists | existsmulti | remove; suffix "!" = the call's script command fails (transport fault)
 	keys []string
 }
 
@@ -71,7 +71,31 @@ func c35cBody(p c35cProg) func(x *vsched.Exec) {
 		removed := map[string]bool{} // Remove was called
 		var errs []string
 		var neg []string
+		failNext := false
+		cl.Fail = func(argv []string) error {
+			if up := strings.ToUpper(argv[0]); failNext && (up == "EVALSHA" || up == "EVAL") {
+				failNext = false
+				return fmt.Errorf("verif: injected transport fault")
+			}
+			return nil
+		}
 		run := func(who string, op c35cOp) {
+			if strings.HasSuffix(op.kind, "!") {
+				// an operation that fails (error path of the filter code): its result is not judged
+				failNext = true
+				switch strings.TrimSuffix(op.kind, "!") {
+				case "add":
+					f.Add(ctx, op.keys[0])
+				case "addmulti":
+					f.AddMulti(ctx, op.keys)
+				case "exists":
+					f.Exists(ctx, op.keys[0])
+				case "existsmulti":
+					f.ExistsMulti(ctx, op.keys)
+				}
+				failNext = false
+				return
+			}
 			switch op.kind {
 			case "add":
 				if e := f.Add(ctx, op.keys[0]); e != nil {
@@ -155,6 +179,11 @@ func c35cPrograms(kind string) []c35cProg {
 		{name: "exists;add|add", prelude: []c35cOp{E("q")}, threads: [][]c35cOp{{A("x")}, {A("y")}}},
 		{name: "existsmulti;add|existsmulti", prelude: []c35cOp{EM("q", "r")}, threads: [][]c35cOp{{A("x")}, {EM("y", "z")}}},
 		{name: "add,add|add,exists", threads: [][]c35cOp{{A("x"), A("w")}, {A("y"), E("x")}}},
+		// error paths: an earlier call failed (whatever it did with its scratch buffer must not reach later calls)
+		{name: "existsmulti!;add|add", prelude: []c35cOp{{"existsmulti!", []string{"q", "r"}}}, threads: [][]c35cOp{{A("x")}, {A("y")}}},
+		{name: "exists!;add|addmulti", prelude: []c35cOp{{"exists!", []string{"q"}}}, threads: [][]c35cOp{{A("x")}, {AM("y", "z")}}},
+		{name: "add!;add|add", prelude: []c35cOp{{"add!", []string{"q"}}}, threads: [][]c35cOp{{A("x")}, {A("y")}}},
+		{name: "addmulti!;add|exists", prelude: []c35cOp{{"addmulti!", []string{"q", "r"}}}, threads: [][]c35cOp{{A("x")}, {E("y")}}},
 	}
 	if kind == "counting" {
 		progs = append(progs,
@@ -169,7 +198,7 @@ func c35cPrograms(kind string) []c35cProg {
 
 func c35cMain(t *testing.T, id, kind string) {
 	vrun.Main(t, id, func(r *vrun.Run) {
-		r.Rule = "concurrent half: 2 threads x 1-2 operations (Add, AddMulti, Exists, ExistsMulti" + map[string]string{"counting": ", Remove"}[kind] + ") on one " + kind + " filter over the command-level fake client and the mini Lua interpreter, optionally after a sequential query that has already used the scratch-buffer pool; simulated sync.Pool = LIFO free list; all schedules within the preemption/delay bound; then every item whose Add returned nil (and that was not removed) must be reported present; non-trivial = schedule in which a thread blocked"
+		r.Rule = "concurrent half: 2 threads x 1-2 operations (Add, AddMulti, Exists, ExistsMulti" + map[string]string{"counting": ", Remove"}[kind] + ") on one " + kind + " filter over the command-level fake client and the mini Lua interpreter, optionally after a sequential call that has already used the scratch-buffer pool (a query, or a call of each kind that FAILED with a transport fault: error paths); simulated sync.Pool = LIFO free list; all schedules within the preemption/delay bound; then every item whose Add returned nil (and that was not removed) must be reported present; non-trivial = schedule in which a thread blocked"
 		progs := c35cPrograms(kind)
 		for pi, p := range progs {
 			vexp.Run(r, vexp.Prog{Name: p.name, Delay: 1, Budget: vsched.Budget{MaxPreempt: vrun.Pick(r, 2, 3)}, Opts: vsched.Options{Horizon: 20000, MaxVirtual: time.Minute}, Body: c35cBody(p), Seconds: r.Remaining() / float64(len(progs)-pi)})
